@@ -15,6 +15,7 @@ EXPLANATION = (
 
 
 def run(ctx: Ctx) -> None:
+    ctx.rule('R-STATE', 'a block that renders children inside container(...) decides the item-gap flag itself after the container')
     ctx.rule("R-CLEANUP", "cleanup stores are guarded by heading / single child / strong emphasis and keep the content")
     ctx.rule("R-REWRITE-alias", "element types rendered by the same code are treated alike by every isinstance dispatch in transforms/")
     ctx.rule("R-DECISION-spacing", "one arm per ListSpacing member, each depending on the right input")
@@ -24,6 +25,7 @@ def run(ctx: Ctx) -> None:
     ctx.run(cleanups.check_cleanup_guards)
     ctx.run(rewrite.check_alias_coverage)
     ctx.run(cleanups.check_spacing_arms)
+    ctx.run(cleanups.check_item_gap_flag)
     ctx.run(rewrite.check_nonint, ("cleanups",))
     ctx.run(rewrite.check_list_spacing_confinement)
     ctx.run(optflow.check_consumers, ("cleanups",))
